@@ -738,6 +738,15 @@ def r01_9(ctx):
     no_autodetected_base(ctx, [CORE], "relations in conditions (`H > 12`) compare a hex option's value as decimal when it has no 0x prefix")
 
 
+def r01_10(ctx):
+    """R01.10 members of a choice get the choice's value rule only if they are registered as members: _finalize_choice runs
+    on the flattened child list - entries inside an `if` block of the choice included - and registers exactly the Symbol
+    children (C05 R05.3 / R05.6c); an unregistered entry is evaluated as a plain bool next to the choice's own selection."""
+    from . import c05
+    from .common import delegate
+    delegate(ctx, c05.r05_6, lambda c: "_finalize_node" in c or "_finalize_choice" in c)
+    delegate(ctx, c05.r05_3, lambda c: True)
+
 def rules():
-    return [("R01.9", r01_9, 10), ("R01.1", r01_1, 9), ("R01.2", r01_2, 5), ("R01.3", r01_3, 5), ("R01.4", r01_4, 12), ("R01.5", r01_5, 7),
+    return [("R01.10", r01_10, 2), ("R01.9", r01_9, 10), ("R01.1", r01_1, 9), ("R01.2", r01_2, 5), ("R01.3", r01_3, 5), ("R01.4", r01_4, 12), ("R01.5", r01_5, 7),
             ("R01.6", r01_6, 5), ("R01.7", r01_7, 4), ("R01.8", r01_8, 14)]
